@@ -604,14 +604,10 @@ def compute_drho(ctx, mod):
         return
     used = {n.id for n in walk(store[0].value) if isinstance(n, ast.Name)}
     tmp = [s for s in assigns if s.targets[0].id in used]
-    # further locals (an alias of the rho array, an index vector built with np.arange) are evaluated where they are used
-    local_defs = {}
-    for s in assigns:
-        if s not in tmp:
-            if s.targets[0].id in local_defs:
-                ctx.unrec(rule, key, 'local %s is assigned twice' % s.targets[0].id)
-                return
-            local_defs[s.targets[0].id] = s.value
+    # further locals (an alias of the rho array, an index vector built with np.arange, a slice bound chosen by an if / else) are
+    # interpreted statement by statement for every (w_max, i): see run_body
+    if len({s.targets[0].id for s in tmp}) == 1 and tmp:
+        tmp = tmp[-1:]
     if len(tmp) != 1:
         ctx.unrec(rule, key, 'expected one local that is stored')
         return
@@ -622,9 +618,10 @@ def compute_drho(ctx, mod):
         if isinstance(e, ast.Constant):
             return e.value
         if isinstance(e, ast.Name):
-            if e.id not in env and e.id in local_defs:
-                return ev_int(local_defs[e.id], env)
-            return env[e.id]
+            v = env[e.id]
+            if v is RHO or isinstance(v, tuple) or (isinstance(v, list) and v and isinstance(v[0], tuple)):
+                raise Unrecognised('integer expression %s' % e.id)
+            return v
         if isinstance(e, ast.UnaryOp) and isinstance(e.op, ast.USub):
             v = ev_int(e.operand, env)
             return [-x for x in v] if isinstance(v, list) else -v
@@ -662,15 +659,44 @@ def compute_drho(ctx, mod):
             return {ast.LtE: a <= b, ast.Lt: a < b, ast.GtE: a >= b, ast.Gt: a > b, ast.Eq: a == b, ast.NotEq: a != b}[type(e.ops[0])]
         raise Unrecognised('condition %s' % unparse(e))
 
+    RHO = object()
+    CUR = {}
+
+    def run_body(stmts, env):
+        """interpret the straight-line / if-else body of the nested function on one (w_max, i): integers, index vectors, aliases
+        of the rho array and term vectors are bound in env; the statement that stores the result ends the run"""
+        for st in stmts:
+            if isinstance(st, ast.Expr) and isinstance(st.value, ast.Constant):
+                continue
+            if isinstance(st, ast.If):
+                run_body(st.body if ev_bool(st.test, env) else st.orelse, env)
+                continue
+            if st is store[0]:
+                continue
+            if isinstance(st, ast.Assign) and len(st.targets) == 1 and isinstance(st.targets[0], ast.Name):
+                CUR.clear()
+                CUR.update(env)
+                if is_rho(st.value):
+                    env[st.targets[0].id] = RHO
+                    continue
+                try:
+                    env[st.targets[0].id] = ev_int(st.value, env)
+                except (Unrecognised, KeyError, TypeError):
+                    env[st.targets[0].id] = ev_vec(st.value, env)
+                CUR.clear()
+                CUR.update(env)
+                continue
+            raise Unrecognised('statement %s' % unparse(st)[:60])
+
     def is_rho(e):
-        if isinstance(e, ast.Name) and e.id in local_defs:
-            return is_rho(local_defs[e.id])
+        if isinstance(e, ast.Name):
+            return CUR.get(e.id) is RHO
         return isinstance(e, ast.Subscript) and 'e_rho' in unparse(e.value) and not isinstance(e.slice, ast.Slice) and unparse(e.slice) == 'e_name'
 
     def ev_vec(e, env):
         """list of (coefficient-structure) : we evaluate index lists; arithmetic is tracked as tuples"""
-        if isinstance(e, ast.Name) and e.id in local_defs and not is_rho(e):
-            return ev_vec(local_defs[e.id], env)
+        if isinstance(e, ast.Name) and (isinstance(env.get(e.id), tuple) or (isinstance(env.get(e.id), list) and (not env[e.id] or isinstance(env[e.id][0], tuple)))):
+            return env[e.id]
         if isinstance(e, ast.Subscript) and is_rho(e.value):
             sl = e.slice
             n = env['w_max']
@@ -732,7 +758,9 @@ def compute_drho(ctx, mod):
             for i in range(1, w // 2 + 1):
                 env = {'w_max': w, iv: i}
                 try:
-                    got = ev_vec(tmp[0].value, env)
+                    CUR.clear()
+                    run_body(f.body, env)
+                    got = env[tmp[0].targets[0].id]
                 except Unrecognised as e:
                     if 'length mismatch' in str(e):
                         bad = (w, i, str(e))
@@ -1044,6 +1072,8 @@ SELFTEST = [
     ('ddvalue-not-normalised', 'pyerrors/obs.py', "self.ddvalue = np.sqrt(self.ddvalue) / self._dvalue", "self.ddvalue = np.sqrt(self.ddvalue)", 'C02-D1'),
     ('no-pair-clamp', 'pyerrors/obs.py', "gamma_div[gamma_div < 1] = 1.0", "gamma_div[gamma_div < 0] = 1.0", 'C02-D3'),
     ('clamp-inside-loop', 'pyerrors/obs.py', "            gamma_div[gamma_div < 1] = 1.0\n", "                gamma_div[gamma_div < 1] = 1.0\n", 'C02-D3'),
+    ('drho-index-vector-wraps', 'pyerrors/obs.py', '                tmp = (self.e_rho[e_name][i + 1:w_max]\n                       + np.concatenate([self.e_rho[e_name][i - 1:None if i - (w_max - 1) // 2 <= 0 else (2 * i - (2 * w_max) // 2):-1],\n                                         self.e_rho[e_name][1:max(1, w_max - 2 * i)]])\n                       - 2 * self.e_rho[e_name][i] * self.e_rho[e_name][1:w_max - i])\n', '                k = np.arange(1, w_max - i)\n                rho = self.e_rho[e_name]\n                tmp = rho[k + i] + rho[k - i] - 2 * rho[i] * rho[k]\n', 'C02-D5'),
+    ('benign-drho-index-vector', 'pyerrors/obs.py', '                tmp = (self.e_rho[e_name][i + 1:w_max]\n                       + np.concatenate([self.e_rho[e_name][i - 1:None if i - (w_max - 1) // 2 <= 0 else (2 * i - (2 * w_max) // 2):-1],\n                                         self.e_rho[e_name][1:max(1, w_max - 2 * i)]])\n                       - 2 * self.e_rho[e_name][i] * self.e_rho[e_name][1:w_max - i])\n', '                k = np.arange(1, w_max - i)\n                rho = self.e_rho[e_name]\n                tmp = rho[k + i] + rho[np.abs(k - i)] - 2 * rho[i] * rho[k]\n', 'BENIGN'),
     ('drho-factor-two', 'pyerrors/obs.py', "                       - 2 * self.e_rho[e_name][i] * self.e_rho[e_name][1:w_max - i])", "                       - self.e_rho[e_name][i] * self.e_rho[e_name][1:w_max - i])", 'C02-D5'),
     ('drho-mirror-start', 'pyerrors/obs.py', "self.e_rho[e_name][i - 1:None if i - (w_max - 1) // 2 <= 0", "self.e_rho[e_name][i:None if i - (w_max - 1) // 2 <= 0", 'C02-D5'),
     ('drho-norm', 'pyerrors/obs.py', "self.e_drho[e_name][i] = np.sqrt(np.sum(tmp ** 2) / e_N)", "self.e_drho[e_name][i] = np.sqrt(np.sum(tmp ** 2)) / e_N", 'C02-D5'),
